@@ -130,6 +130,9 @@ def run(tier):
             if len(ws) == 1 and any(is_self_text(x) for x in facts.walk(ws[0])):
                 ok = True
         C.ob("C01/display-is-text", t, ok, "Display must write exactly self.0.text() (%s)" % detail, f["sp"])
+        import rowanmodel
+        ok2, det = rowanmodel.display_writes_text(F, f["key"])
+        C.ob("C01/display-is-text", t + " (interpreted)", ok2, det, f["sp"])
     C.assumptions += ["rowan SyntaxNode::text() returns the concatenation of the token texts passed to the builder, in order",
                       "token texts are opaque to the parser (it inspects kinds only): established by the analysis vocabulary - any other use of a token is reported as an escape"]
     return C.finish("The lexer closure is abstractly interpreted for every reachable mode x 131 character classes (partition, char-boundary, non-empty); "
